@@ -9,6 +9,7 @@ mod eval;
 mod relations;
 mod builders;
 mod paths;
+mod merkle;
 mod rng;
 mod t_time_locks;
 mod t_tree_hash;
@@ -79,6 +80,7 @@ fn main() {
                     "relations_ground" => relations::replay_relations(&v["input"]),
                     "builders_ground" => builders::replay_builders(&v["input"]),
                     "paths_ground" => paths::replay_paths(&v["input"]),
+                    "merkle_ground" => merkle::replay_merkle(&v["input"]),
                     "bls_cache_ground" => eval::replay_bls(&v["input"]),
                     "tree_hash_precomputed" => eval::replay_precomputed(&v["input"]),
                     _ => (false, "unknown eval replay".to_string()),
